@@ -275,36 +275,53 @@ def warps_first(ctx: Ctx, direction: str = "both") -> None:
     ctx.expect("R-FWD", cv, "the check looks at the source simfile", kw.get("source") == cv.param_names()[0] or (w.args and ast.unparse(w.args[0]) == cv.param_names()[0]), "", str(kw), node=w)
     # in _convert_warps: SM source: bpms and stops, value < 0 -> NotImplementedError
     sp = cw.param_names()[0]
-    raises = [r for r in body_walk(cw.node) if isinstance(r, ast.Raise)]
+    from .tables import Dec, closed, judge as tjudge, sums_of as tsums, terminal_text, leaves_loop_early
+    wsums = tsums(ctx, cw)
+    SM, SSC = f"isinstance({sp}, SMSimfile)", f"isinstance({sp}, SSCSimfile)"
+    want_lists = sorted([f"BeatValues.from_str({sp}.bpms)", f"BeatValues.from_str({sp}.stops)"])
     sm_ok = False
-    ssc_ok = False
-    for r in raises:
-        exc = r.exc.func if isinstance(r.exc, ast.Call) else r.exc
-        if not (isinstance(exc, ast.Name) and exc.id == "NotImplementedError"):
+    sm_decs = []
+    seen_lists = set()
+    for s_ in wsums:
+        fors = [(i, e) for i, e in enumerate(s_.effects) if e.kind == "for"]
+        inner = None
+        for i, e in fors:
+            # the element loop: iterates chain(<the lists>), or the variable of an enclosing loop over the lists
+            ce = closed(s_, e.value, i)
+            if isinstance(ce, ast.Call) and ast.unparse(ce.func) in ("chain", "itertools.chain") and not ce.keywords and isinstance(e.target, ast.Name):
+                seen_lists.add(tuple(sorted(ast.unparse(x) for x in ce.args)))
+                inner = e
+            for j, o in fors:
+                if j < i and isinstance(o.target, ast.Name) and ast.unparse(e.value) == o.target.id and isinstance(e.target, ast.Name):
+                    lists = closed(s_, o.value, j)
+                    if isinstance(lists, (ast.Tuple, ast.List)):
+                        seen_lists.add(tuple(sorted(ast.unparse(x) for x in lists.elts)))
+                        inner = e
+        if inner is None:
             continue
-        fs = facts(ctx, cw, r)
-        pos = [ast.unparse(a) for a, pol in fs if pol]
-        if f"isinstance({sp}, SMSimfile)" in pos:
-            for a_, pol_ in facts(ctx, cw, r):
-                if not pol_:
-                    continue
-                mm = match("any(($x.value < 0 for $g in $lists for $x in $g))", a_)
-                if mm is not None and isinstance(mm["lists"], (ast.Tuple, ast.List)):
-                    srcs_ = sorted(ast.unparse(inline(e, cw)) for e in mm["lists"].elts)
-                    if srcs_ == sorted([f"BeatValues.from_str({sp}.bpms)", f"BeatValues.from_str({sp}.stops)"]):
-                        sm_ok = True
-            neg = [a for a in pos if re.fullmatch(r"(\w+)\.value < 0", a)]
-            # the loop covers both lists
-            lists = None
-            for lp in for_loops(cw):
-                if in_body(lp, r) and isinstance(lp.iter, (ast.Tuple, ast.List)):
-                    lists = [inline(e, cw) for e in lp.iter.elts]
-            srcs = sorted(ast.unparse(x) for x in lists) if lists else []
-            sm_ok = sm_ok or (bool(neg) and srcs == sorted([f"BeatValues.from_str({sp}.bpms)", f"BeatValues.from_str({sp}.stops)"]))
-        if f"isinstance({sp}, SSCSimfile)" in pos:
-            ssc_ok = any("warps" in a for a in pos)
+        x = inner.target.id
+        t = terminal_text(s_)
+        out = ("refused" if t == "raise NotImplementedError" else "passes") + (" at this element" if leaves_loop_early(s_) else "")
+        assign = {k.replace(f"{x}.value", "ELEMENT.value"): v for k, v in s_.plain_assign().items()}
+        sm_decs.append(Dec(assign, out, s_))
+    if sm_decs and seen_lists == {tuple(want_lists)}:
+        NEG = "ELEMENT.value < 0"
+        from ..decide import check_table
+        v_, u_ = check_table(sm_decs, [SM, NEG], lambda a: ("refused at this element" if a[NEG] else "passes") if a[SM] else __import__("sfa.decide", fromlist=["IGNORE"]).IGNORE, lambda d: d.outcome,
+                             dont_care=[SSC], strict_foreign=True)
+        sm_ok = not v_ and not u_
+        sm_detail = "; ".join((v_ or u_)[:2])
+    else:
+        sm_detail = f"lists checked: {sorted(seen_lists)}"
+    ssc_ok = False
+    ssc_paths = [s_ for s_ in wsums if s_.plain_assign().get(SSC) is True and s_.plain_assign().get(SM) is not True]
+    warp_atoms = {k for s_ in ssc_paths for k in s_.plain_assign() if "warps" in k}
+    if len(warp_atoms) == 1:
+        wa = next(iter(warp_atoms))
+        ssc_ok = wa in (f"len(BeatValues({sp}.warps))", f"BeatValues({sp}.warps)", f"{sp}.warps", f"0 < len(BeatValues({sp}.warps))") and \
+            all((terminal_text(s_) == "raise NotImplementedError") == bool(s_.plain_assign().get(wa)) for s_ in ssc_paths if wa in s_.plain_assign())
     if direction in ("both", "sm_to_ssc"):
-        ctx.expect("R-TABLE", cw, "an SM source with a negative BPM or stop is refused (both lists are checked)", sm_ok, "", "the 'value < 0 -> NotImplementedError' check no longer covers bpms and stops", node=cw.node)
+        ctx.expect("R-TABLE", cw, "an SM source with a negative BPM or stop is refused (both lists are checked)", sm_ok, "", "the 'value < 0 -> NotImplementedError' check no longer covers every element of bpms and stops: " + sm_detail, node=cw.node)
     if direction in ("both", "ssc_to_sm"):
         ctx.expect("R-TABLE", cw, "an SSC source with warps is refused", ssc_ok, "", "", node=cw.node)
 
@@ -424,38 +441,60 @@ def table_completeness(ctx: Ctx) -> None:
 
 
 def policy_dispatch(ctx: Ctx) -> None:
-    """C17.3: per-member outcomes of _should_copy_property."""
+    """C17.3: per-member outcomes of _should_copy_property (decision table over path effects)."""
     p = ctx.p
     f = p.func(f"{CV}:_should_copy_property")
     prop, val, invp, behp = f.param_names()
-    loc = locals_of(f)
-    bnames = [n for n, bs in loc.b.items() for b in bs if b.kind == "assign" and match("$m.get($k) or INVALID_PROPERTY_BEHAVIORS[$k]", b.value) is not None]
-    BN = bnames[0] if len(bnames) == 1 else "behavior"
-    bb = [b for b in loc.b.get(BN, []) if b.kind == "assign"]
-    okl = len(bb) == 1 and match("$m.get($k) or INVALID_PROPERTY_BEHAVIORS[$k]", bb[0].value) is not None
-    if okl:
-        m = match("$m.get($k) or INVALID_PROPERTY_BEHAVIORS[$k]", bb[0].value)
-        okl = ast.unparse(m["m"]) == behp
-    ctx.expect("R-TABLE", f, "the caller's mapping is consulted first, the default mapping otherwise", okl, "", f"{src(bb[0].value) if bb else ''}", node=f.node)
-    lps = [l for l in for_loops(f) if matches("$t.items()", l.iter) and isinstance(l.iter.func.value, ast.Name) and l.iter.func.value.id == invp]
-    l = one(lps, "loop over the invalid-property table in _should_copy_property")
-    kind, keys = [e.id for e in l.target.elts]
-    if okl:
-        okk = ast.unparse(match("$m.get($k) or INVALID_PROPERTY_BEHAVIORS[$k]", bb[0].value)["k"]) == kind
-        ctx.expect("R-TABLE", f, "the behaviour is looked up by the property's kind", okk, "", "", node=f.node)
-    from ..decide import decisions, judge_table, key as _k, IGNORE
-    listed = _k(f"{prop} in {keys}")
-    B = {m: _k(f"{BN} == InvalidPropertyBehavior.{m}") for m in ("COPY_ANYWAY", "IGNORE", "ERROR_UNLESS_DEFAULT", "ERROR")}
-    isdef = _k(f"{val}.strip() == DEFAULT_PROPERTIES[{prop}]")
+    from .tables import Dec, function_decs, judge as tjudge, sums_of as tsums, terminal_text, atoms_seen, leaves_loop_early
+    from ..decide import IGNORE
+    # the local holding the behaviour: the name compared with InvalidPropertyBehavior members
+    bns = {n.left.id for n in body_walk(f.node) if isinstance(n, ast.Compare) and isinstance(n.left, ast.Name) and len(n.comparators) == 1
+           and ast.unparse(n.comparators[0]).startswith("InvalidPropertyBehavior.")}
+    require(len(bns) == 1, f"{f.fq}: expected one local compared with InvalidPropertyBehavior members, found {sorted(bns)}")
+    BN = next(iter(bns))
+    sums = tsums(ctx, f, keep=[BN])
+    loops = {(ast.unparse(e.target), e.line) for s_ in sums for e in s_.effects if e.kind == "for" and ast.unparse(e.value) == f"{invp}.items()"}
+    require(len(loops) == 1, f"{f.fq}: expected one loop over {invp}.items(), found {sorted(loops)}")
+    tgt, line = next(iter(loops))
+    tt = ast.parse(tgt, mode="eval").body
+    require(isinstance(tt, ast.Tuple) and len(tt.elts) == 2 and all(isinstance(e, ast.Name) for e in tt.elts), f"{f.fq}: loop target {tgt} is not (kind, keys)")
+    kind, keys = tt.elts[0].id, tt.elts[1].id
+    # how the behaviour is chosen: caller's mapping first, default mapping otherwise, by the property's kind
+    G = f"{behp}.get({kind})"
+    bdecs = []
+    for s_ in sums:
+        bi = [e for e in s_.effects if e.kind == "bind" and isinstance(e.target, ast.Name) and e.target.id == BN]
+        if bi:
+            bdecs.append(Dec(dict(s_.atoms_in(line)), ast.unparse(bi[-1].value), s_))
+    listed = f"{prop} in {keys}"
+    tjudge(ctx, "R-TABLE", f, "the behaviour is the caller's mapping's entry for the property's kind when it has one, the default mapping's otherwise", bdecs, [G],
+           lambda a: G if a[G] else f"INVALID_PROPERTY_BEHAVIORS[{kind}]", dont_care=[listed] + [f"{BN} == InvalidPropertyBehavior.{m}" for m in ("COPY_ANYWAY", "IGNORE", "ERROR_UNLESS_DEFAULT", "ERROR")]
+           + [f"{val}.strip() == DEFAULT_PROPERTIES[{prop}]"], strict_foreign=False)
+    B = {m: f"{BN} == InvalidPropertyBehavior.{m}" for m in ("COPY_ANYWAY", "IGNORE", "ERROR_UNLESS_DEFAULT", "ERROR")}
+    isdef = f"{val}.strip() == DEFAULT_PROPERTIES[{prop}]"
+
+    def out(s_):
+        t = terminal_text(s_)
+        return {"return True": True, "return False": False}.get(t, t)
+
+    decs = [Dec({k: v for k, v in s_.atoms_in(line).items()}, out(s_), s_) for s_ in sums if any(e.kind == "for" for e in s_.effects)]
+    from ..decide import key as _k
+    a_keys = set(atoms_seen(decs))
+    defs = [k_ for k_ in a_keys if "DEFAULT_PROPERTIES[" in k_]
+    if len(defs) == 1 and defs[0] != _k(isdef):
+        ctx.bad("R-TABLE", f, "the default test compares the trimmed value with the field's default", f"the test is '{defs[0]}', the documented rule is '{isdef}' "
+                "(a default value with surrounding blanks must still count as the default)", node=f.node)
+        isdef = defs[0]
+    tested = {m: k_ for m, k_ in B.items() if _k(k_) in a_keys}
 
     def spec(a):
         if not a[listed]:
-            return True
-        on = [m for m, k_ in B.items() if a.get(k_)]
+            return IGNORE  # the next kind is looked at; an unlisted property falls out of the loop (checked below)
+        on = [m for m, k_ in tested.items() if a.get(k_)]
         if len(on) > 1:
             return IGNORE
         if not on:
-            return "raise InvalidPropertyException" if B["ERROR"] not in a_keys else IGNORE
+            return "raise InvalidPropertyException" if "ERROR" not in tested else IGNORE
         m = on[0]
         if m == "COPY_ANYWAY":
             return True
@@ -465,28 +504,12 @@ def policy_dispatch(ctx: Ctx) -> None:
             return False if a[isdef] else "raise InvalidPropertyException"
         return "raise InvalidPropertyException"
 
-    def outcome(d):
-        k_, v = d.terminal()
-        if k_ == "return":
-            c = try_ev(ctx, f, v) if v is not None else None
-            return c if isinstance(c, bool) else f"return {src(v) if v is not None else ''}"
-        if k_ == "raise":
-            e = v.func if isinstance(v, ast.Call) else v
-            return f"raise {ast.unparse(e)}"
-        return "fall"
-
-    decs = decisions(ctx, f, nonempty=lambda fornode, env: fornode is l, stop=[BN])
-    a_keys = set()
-    for d in decs:
-        a_keys.update(d.assign)
-    defs = [k_ for k_ in a_keys if "DEFAULT_PROPERTIES[" in k_]
-    if len(defs) == 1 and defs[0] != isdef:
-        ctx.bad("R-TABLE", f, "the default test compares the trimmed value with the field's default", f"the test is '{defs[0]}', the documented rule is '{isdef}' "
-                "(a default value with surrounding blanks must still count as the default)", node=f.node)
-        isdef = defs[0]
-    atoms = [listed] + [k_ for k_ in B.values() if k_ in a_keys] + [isdef]
-    judge_table(ctx, "R-TABLE", f, "COPY_ANYWAY -> copied; IGNORE -> left out; ERROR_UNLESS_DEFAULT -> left out iff the trimmed value is the default, else refused; "
-                "ERROR -> refused; unlisted property -> copied", decs, atoms, spec, outcome, dont_care=[_k(f"{prop} in {keys}")])
+    tjudge(ctx, "R-TABLE", f, "COPY_ANYWAY -> copied; IGNORE -> left out; ERROR_UNLESS_DEFAULT -> left out iff the trimmed value is the default, else refused; ERROR -> refused",
+           decs, [listed] + list(tested.values()) + [isdef], spec, dont_care=[G])
+    # a property no kind lists is copied
+    unl = [d for d in decs if d.assign.get(_k(listed)) is False] + [Dec({}, out(s_), s_) for s_ in sums if not any(e.kind == "for" for e in s_.effects)]
+    ctx.expect("R-TABLE", f, "a property that no kind lists is copied", bool(unl) and all(d.outcome is True and not leaves_loop_early(d.src) for d in unl), "",
+               f"outcomes for an unlisted property: {sorted({str(d.outcome) + (' (decided at the first kind that does not list it)' if leaves_loop_early(d.src) else '') for d in unl})}", node=f.node)
     # the exception names the property
     rs = [n for n in body_walk(f.node) if isinstance(n, ast.Raise)]
     okn = any(isinstance(r.exc, ast.Call) and any(isinstance(x, ast.Name) and x.id == prop for x in ast.walk(r.exc)) for r in rs)
